@@ -7,6 +7,7 @@
 //          snn    SimpleNearestNeighbors only (F6 search; many queries, few batches)
 //          f7     ErrorFunction over a model containing a DropoutLayer on random::globalRng (re-seeded)
 //          share  concurrent shared copies / indexedSubset of one dataset from all threads
+//          empty  probe: ErrorFunction::eval on a dataset without batches (documented, not a check)
 //          cases <file>  correspondence with the extracted models (one output line per input line):
 //                 split  which batches each worker of ErrorFunction::eval/evalDerivative,
 //                        NegativeLogLikelihood::evalDerivative evaluates (recorded by the model plugged in)
@@ -239,7 +240,7 @@ struct TraceLabel {
 	TraceLabel() : id(0) { if(armed && !omp_in_parallel()) ++defaults; }
 	explicit TraceLabel(unsigned i) : id(i) {}
 	TraceLabel(TraceLabel const& o) : id(o.id) {}
-	TraceLabel& operator=(TraceLabel const& o){ id = o.id; if(armed && defaults <= 1 && omp_in_parallel()) written[omp_get_thread_num()].push_back(this); return *this; }
+	TraceLabel& operator=(TraceLabel const& o){ id = o.id; if(armed && defaults <= 1) written[omp_get_thread_num()].push_back(this); return *this; }
 	template<class A> void serialize(A& ar, unsigned int){ ar & id; }
 };
 std::vector<std::vector<TraceLabel const*> > TraceLabel::written; int TraceLabel::defaults = 0; bool TraceLabel::armed = false;
@@ -366,6 +367,14 @@ static int mode_cases(char const* file){
 }
 
 int main(int argc, char** argv){
+	if(argc > 1 && std::string(argv[1]) == "empty"){
+		// probe, outside the theorems: a dataset without batches makes numThreads = min(threads,0) = 0 and eval divides by it
+		LabeledData<RealVector,RealVector> data; LinearModel<> model(2, 1, true); SquaredLoss<> loss;
+		ErrorFunction<> e(data, &model, &loss); RealVector p(model.numberOfParameters(), 0.0);
+		printf("empty.batches %zu\n", data.numberOfBatches()); fflush(stdout);
+		printf("empty.eval %a\n", e.eval(p)); fflush(stdout);
+		return 0;
+	}
 	if(argc > 2 && std::string(argv[1]) == "cases"){
 		try{ return mode_cases(argv[2]); }catch(std::exception const& ex){ printf("EXC %s\n", ex.what()); return 3; }
 	}
